@@ -5,6 +5,12 @@ ROOT = os.path.dirname(os.path.dirname(os.path.abspath(__file__)))
 ALL = ["C%02d" % i for i in range(1, 18)]
 TIE = " Tied to /repo on every run by a differential correspondence (implementation built from the working tree vs the executable Lean model, generated inputs from VERIF_SEED, shrinking, property-oracle search on disagreement)."
 CLAIMS = {
+ "C06": ("Generic Lean 4 theorem (any number of threads, any trace): if every access happens inside critical sections on one lock held exclusively, sections of different threads never interleave (serial execution in acquisition order, respecting real time). Instantiated by kernel-decided obligations on lock facts REGENERATED from the source on every run: OrefaFS Mkdir/MkdirAll/Remove/RemoveAll and all MemIdm operations except AddUser touch guarded state inside one section only; AddUser's two sections are a kernel-checked witness of a recorded finding.",
+         "Full linearizability of MemFS's lock-free walk is not claimed; the translator is trusted; non-linearizable pairs are recorded findings reproduced only by free-running stress (no deterministic scheduler).",
+         "Lean 4 proof (generic mutual-exclusion theorem + decide over regenerated lock facts) + race-detector stress as search", "§3 C06"),
+ "C08": ("Generic Lean 4 theorem: lock discipline ⇒ every two conflicting accesses are ordered by happens-before (no data race; visibility of completed calls), for any number of threads and any trace. Lock facts (locks certainly held at every access of every guarded field, with requirement propagation through calls) are REGENERATED from the source on every run and the kernel decides that the undisciplined sites are exactly the recorded ones.",
+         "The bridge facts ⇒ Disciplined traces (lockset soundness) is the translator's meaning, not a theorem; recorded undisciplined sites are findings in the ledger; the race detector run covers the race-free call subsets only.",
+         "Lean 4 proof (happens-before theorem + decide over regenerated lock facts) + Go race detector as search", "§3 C08"),
  "C01": ("Lean 4 theorems over the MemFS model for every call, path and state: a path that is not lexically clean behaves exactly as its Clean() form (walk, outcome and resulting state). The equality with Linux itself is decided by running MemFS and the kernel (OsFS in a chroot on tmpfs) on the same histories with full tree comparison after every call; each known divergence is a ledger class keyed by call, operand situation and the two outcomes.",
          "MemFS = Posix as a theorem is NOT proved (no Lean reference semantics of Linux yet); OrefaFS is not modelled yet. The kernel comparison is an oracle run, sampled.",
          "Lean 4 proof (unclean = clean) + differential correspondence impl≟model + impl≟kernel oracle with ledger", "§3 C01"),
